@@ -34,7 +34,7 @@ PROPS = {
                 ("unfill", FF, 2000, 50000), ("refill", FF, 2000, 50000), ("indent", FF, 1500, 30000), ("dedent", FF, 1500, 30000),
                 ("wc", FF, 1500, 40000), ("dw", FF, 2000, 40000), ("fwa", FF, 1500, 30000), ("fwu", FF, 1500, 30000),
                 ("sw", FF, 1500, 30000), ("bw", FF, 1500, 30000), ("ba", FF, 1500, 30000), ("ff", FF, 1500, 30000),
-                ("of", FF, 1500, 30000), ("ffx", FF, 2000, 50000), ("ofx", FF, 2000, 50000), ("wsl", FF, 1500, 30000)],
+                ("of", FF, 1500, 30000), ("ffx", FF, 2000, 50000), ("ofx", FF, 2000, 50000), ("wsl", FF, 1500, 30000), ("std", FF, 2000, 50000)],
         "explanation": "totality theorems for wrap and fill (every byte slice in range and on boundaries), fill_inplace, unfill, split_words (built-in splitters), optimal_fit (every Num), wrap_columns relative to wrap; functions whose model type has no option cannot fail in the model; the rest is exploration: every op under catch_unwind and a watchdog on the adversarial stream, debug build with overflow checks (release as well in the thorough tier), non-finite f64 fragments",
         "assumptions": ["memory exhaustion, stack depth and wall-clock time are outside the model and only measured"],
     },
@@ -74,7 +74,7 @@ PROPS = {
         "assumptions": ["f64 = exact Z/Q on the generated range"],
     },
     "C09": {
-        "ops": [("wrap9", FF, 6000, 150000), ("wrap9", MIN, 2000, 40000)],
+        "ops": [("wrap9", FF, 6000, 150000), ("wrap9", MIN, 2000, 40000), ("std", FF, 4000, 100000)],
         "explanation": "theorems C09_prefix/tail_independent/empty_indents/line_count/fill_is_join/crlf_equivariant for any optimal-fit oracle that returns a partition; L1 on seven related calls per case; L2 evaluates each relation on the implementation's results",
         "assumptions": ["the optimal-fit oracle returns at least one line and does not invent words (follows from C06)"],
     },
@@ -114,13 +114,13 @@ PROPS = {
     },
     "C18": {
         "exh": [("exh-dedent", FF)], "spot": ["dedent"],
-        "ops": [("dedent", FF, 8000, 200000), ("dedent18", FF, 8000, 200000)],
+        "ops": [("dedent", FF, 8000, 200000), ("dedent18", FF, 8000, 200000), ("std", FF, 4000, 100000)],
         "explanation": "theorems C18_margin/margin_is_longest/spec/idempotent (outside the known-finding class)/dedent_indent; L2 compares dedent with the declarative spec and checks idempotence and dedent-after-indent on the implementation",
         "assumptions": [],
     },
     "C19": {
         "exh": [("exh-indent", FF)], "spot": ["indent"],
-        "ops": [("indent", FF, 10000, 250000)],
+        "ops": [("indent", FF, 10000, 250000), ("std", FF, 4000, 100000)],
         "explanation": "theorems C19_spec/line_structure/empty_prefix; L2 compares with the declarative spec",
         "assumptions": [],
     },
